@@ -9,6 +9,7 @@ import (
 	"regexp"
 	"strconv"
 	"strings"
+	"sync"
 	"sync/atomic"
 	"time"
 	"unicode/utf8"
@@ -574,6 +575,37 @@ func Run(r *fw.Run) {
 		}
 		ws[0].cur.Store(nil)
 		r.Merge(l)
+	}
+
+	// dense length sweep: a path, a comment, a quoted directory and a version of every length 0..enum.DenseMax
+	{
+		var mu sync.Mutex
+		dslots := [][2]string{{"module example.com/", "\n"}, {"module example.com/m\n\nrequire a.com/x v1.0.0 //", "\n"}, {"module example.com/m\n\nreplace a.com/x => \"../", "\"\n"}, {"module example.com/m\n\nrequire a.com/x v1.0.0-", "\n"}, {"go 1.21\n\nuse ./", "\n"}}
+		r.Bounds["dense_length_sweep"] = fmt.Sprintf("%d slots x every fill length 0..%d", len(dslots), enum.DenseMax)
+		fw.Parallel(16, func(sh int) {
+			l := fw.NewLocal()
+			defer r.Merge(l)
+			enum.EachLength('k', enum.DenseMax, func(f string) {
+				if len(f)%16 != sh {
+					return
+				}
+				for _, sl := range dslots {
+					b := []byte(sl[0] + f + sl[1])
+					l.States++
+					l.Transitions++
+					l.Execs += 5
+					res := oneInput(b)
+					if res.synOK {
+						l.Nontrivial++
+					}
+					if res.msg != "" {
+						mu.Lock()
+						report("dense", b, res)
+						mu.Unlock()
+					}
+				}
+			})
+		})
 	}
 
 	retention(r)
